@@ -4,6 +4,7 @@ package chainsim
 
 import (
 	"fmt"
+	"math"
 	"math/rand/v2"
 	"time"
 
@@ -396,8 +397,13 @@ func (s *Scenario) buildDoc(rng *rand.Rand) *genesis.Document {
 			st.Ledger[n.Keys.ID.Addr] = na
 		}
 	}
-	for _, u := range s.Users {
+	for ui, u := range s.Users {
 		acct := &staking.Account{General: staking.GeneralAccount{Balance: q(uint64(20_000 + rng.IntN(50_000)))}}
+		// One user account in five starts at the end of the nonce space, so that histories cross
+		// the wrap-around of the 64-bit nonce (own PRNG stream: the other draws do not move).
+		if nr := rand.New(rand.NewPCG(s.Seed, 0x6e6f6e6365+uint64(ui))); nr.IntN(5) == 0 {
+			acct.General.Nonce = []uint64{math.MaxUint64, math.MaxUint64, math.MaxUint64 - 1, math.MaxUint64 - 3, 1<<63 - 1, 1<<32 - 1}[nr.IntN(6)]
+		}
 		add(&acct.General.Balance)
 		st.Ledger[u.Addr] = acct
 	}
